@@ -51,6 +51,7 @@ from pyrates.frontend.template.operator import OperatorTemplate
 from pyrates.ir.circuit import get_unique_label, CircuitIR, PyRatesException, PyRatesWarning
 from pyrates.ir.edge import EdgeIR
 from pyrates.ir.node import clear_ir_caches
+from pyrates.ir.circuit import in_edge_indices, in_edge_vars
 
 __author__ = "Richard Gast, Daniel Rose"
 __status__ = "Development"
@@ -1227,13 +1228,18 @@ class CircuitTemplate(AbstractBaseTemplate):
         """Removes all temporary files and directories that may have been created during simulations of that circuit.
         Also deletes operator template caches, _imports and path variables from working memory.
         """
-        self._ir.clear()
+        if self._ir is not None:
+            self._ir.clear()
         self._ir = None
         self._state_var_values.clear()
         self._state_var_indices.clear()
+        # process-global caches: reset all of them, also when this circuit holds no IR (never compiled, or compiled
+        # with `clear=True`) - any of them may have been filled by another circuit
         clear_ir_caches()
         OperatorTemplate.cache.clear()
         input_labels.clear()
+        in_edge_indices.clear()
+        in_edge_vars.clear()
         gc.collect()
 
     @property
